@@ -136,3 +136,72 @@ impl ReimFFTExecute<ReimFFTTable<f64>, f64> for Probe {
 impl ReimFFTExecute<ReimIFFTTable<f64>, f64> for Probe {
     fn reim_dft_execute(_table: &ReimIFFTTable<f64>, _data: &mut [f64]) {}
 }
+
+// ---- block (reim4) kernels: exact integer arithmetic on the bit patterns; the pure data movers
+// (extract / save_contiguous) keep the repository's default implementations.
+use poulpy_cpu_ref::reference::fft64::reim4::{Reim4BlkMatVec, Reim4Convolution};
+
+#[inline(always)]
+fn iadd(dst: &mut f64, x: i64) {
+    *dst = bf(fb(*dst).wrapping_add(x));
+}
+
+/// acc += a (*) b on one block of 4 Gaussian integers ([re(4) | im(4)])
+#[inline(always)]
+pub fn add_mul_bits(acc: &mut [i64; 8], a: &[f64], b: &[f64]) {
+    for k in 0..4 {
+        let (ar, ai, br, bi) = (fb(a[k]), fb(a[k + 4]), fb(b[k]), fb(b[k + 4]));
+        acc[k] = acc[k].wrapping_add(ar.wrapping_mul(br).wrapping_sub(ai.wrapping_mul(bi)));
+        acc[k + 4] = acc[k + 4].wrapping_add(ar.wrapping_mul(bi).wrapping_add(ai.wrapping_mul(br)));
+    }
+}
+
+impl Reim4BlkMatVec for Probe {
+    fn reim4_save_1blk<const OVERWRITE: bool>(m: usize, blk: usize, dst: &mut [f64], src: &[f64]) {
+        let off = blk << 2;
+        for h in 0..2 {
+            for k in 0..4 {
+                let d = &mut dst[off + h * m + k];
+                if OVERWRITE { *d = bf(fb(src[4 * h + k])) } else { iadd(d, fb(src[4 * h + k])) }
+            }
+        }
+    }
+    fn reim4_save_2blks<const OVERWRITE: bool>(m: usize, blk: usize, dst: &mut [f64], src: &[f64]) {
+        let off = blk << 2;
+        for h in 0..4 {
+            for k in 0..4 {
+                let d = &mut dst[off + h * m + k];
+                if OVERWRITE { *d = bf(fb(src[4 * h + k])) } else { iadd(d, fb(src[4 * h + k])) }
+            }
+        }
+    }
+    fn reim4_mat1col_prod(nrows: usize, dst: &mut [f64], u: &[f64], v: &[f64]) {
+        let mut acc = [0i64; 8];
+        for i in 0..nrows {
+            add_mul_bits(&mut acc, &u[8 * i..], &v[8 * i..]);
+        }
+        for k in 0..8 {
+            dst[k] = bf(acc[k]);
+        }
+    }
+    fn reim4_mat2cols_prod(nrows: usize, dst: &mut [f64], u: &[f64], v: &[f64]) {
+        let (mut a0, mut a1) = ([0i64; 8], [0i64; 8]);
+        for i in 0..nrows {
+            add_mul_bits(&mut a0, &u[8 * i..], &v[16 * i..]);
+            add_mul_bits(&mut a1, &u[8 * i..], &v[16 * i + 8..]);
+        }
+        for k in 0..8 {
+            dst[k] = bf(a0[k]);
+            dst[8 + k] = bf(a1[k]);
+        }
+    }
+    fn reim4_mat2cols_2ndcol_prod(nrows: usize, dst: &mut [f64], u: &[f64], v: &[f64]) {
+        let mut acc = [0i64; 8];
+        for i in 0..nrows {
+            add_mul_bits(&mut acc, &u[8 * i..], &v[16 * i + 8..]);
+        }
+        for k in 0..8 {
+            dst[k] = bf(acc[k]);
+        }
+    }
+}
